@@ -12,6 +12,10 @@ Three observers on every case (the text of one call term, e.g. ``f(17, -x ** 2, 
   `Model/Lazy.lean` covers it, `pyEval` of `Spec/C12.lean`, and the guard predicates
   (`PyAlphabet`, `PyCompatible`, `PyStratified`, `GroupingInert`, `nameCollision`).
 
+Callees are the recording functions `f`, `g` and dotted attribute paths `tk.v2.scalers.unit`
+(1-4 dots) through module-like objects whose levels bind the same attribute names to different
+recording functions (`build_mods`); the Lean driver gets the object graph and does the lookup itself.
+
 Failures of the specification on the implementation's output are classified KF-C12-D15 /
 KF-C12-D16 only when the Lean guard puts the case in that class *and* the implementation's output
 equals the model's prediction; anything else is reported as a violation.
@@ -40,6 +44,11 @@ ASSUMPTIONS = [
     "Python's reading of a text is Python's own `eval` / `ast.parse` (CPython 3.12); texts Python "
     "rejects (SyntaxError: `f(a=1, x)`, `f(k=1, k=2)`, `f(007)`) are compared with the model only",
     "identifiers are plain names of the environment (no Python keywords, no dotted variables); "
+    "callees are plain names or dotted attribute paths `a.b.c.f` (1-4 dots) through module-like "
+    "objects (types.ModuleType / SimpleNamespace / classes) bound in the namespace, every level of "
+    "which re-uses the same attribute names for different recording functions; the Lean model gets "
+    "the object graph as a flat table keyed by attribute path (objects are reachable by one path "
+    "only: no aliasing of sub-objects) and performs the lookup itself; "
     "brackets `x[a]`, back-quoted names, `|`, `:`, `~`, `//`, `%` are outside the statement's "
     "alphabet and appear only in the model-vs-implementation stream",
     "exception classes are compared only as CallResolverError / AttributeError vs the model's "
@@ -123,12 +132,93 @@ def g(v, k=1):
     return v * 2 + k
 
 
+# ------------------------------------------------------------------------------------------------
+# module-like objects for dotted callees (mirrored by ModEntry / lookupDotted of Driver/C12.lean)
+# ------------------------------------------------------------------------------------------------
+NS_NAMES = ["v2", "scalers", "core"]       # attributes that are namespaces again
+FN_NAMES = ["unit", "rescale"]             # attributes that are recording functions
+TOPS = ["tk", "lib"]
+MODS = {}            # top-level name -> object
+MOD_TABLE = []       # [{"p": [path], "m": [num, den]}?]  for the Lean driver
+MOD_FUNS = []        # dotted paths of the functions
+MOD_NSS = []         # dotted paths of the namespaces
+
+
+def make_unit(m):
+    """u(v, k=1) = v * m + k, recording which function object received what."""
+    def unit(v, k=1):
+        LOG.append([f"u{m}", [canon(v)], [["k", canon(k)]]])
+        return v * m + k
+    unit.__name__ = f"u{m}"
+    return unit
+
+
+def _mk_object(flavour, dotted, attrs):
+    import types
+    if flavour == "module":
+        o = types.ModuleType(dotted)
+        for k, v in attrs.items():
+            setattr(o, k, v)
+        return o
+    if flavour == "simple":
+        return types.SimpleNamespace(**attrs)
+    return type(dotted.split(".")[-1], (), {k: (staticmethod(v) if callable(v) and not isinstance(
+        v, type) else v) for k, v in attrs.items()})
+
+
+def build_mods(rng):
+    """`tk`: the complete tree (every namespace has every function name and, down to three levels
+    below the top, every namespace name), so every path `tk(.ns){0,3}.fn` exists and the same
+    attribute names are bound to different functions at every level.  `lib`: a random sparse tree
+    (attributes missing at random), so that a path may fail although a same-named attribute exists
+    elsewhere.  Object flavours (module / SimpleNamespace / class) are drawn at random."""
+    MODS.clear()
+    _PYNS.clear()
+    del MOD_TABLE[:], MOD_FUNS[:], MOD_NSS[:]
+    mults = list(range(3, 400))
+    rng.shuffle(mults)
+
+    def node(path, sparse):
+        attrs = {}
+        MOD_TABLE.append({"p": list(path)})
+        MOD_NSS.append(".".join(path))
+        for fn in FN_NAMES:
+            if sparse and rng.random() < 0.3:
+                continue
+            m = mults.pop()
+            attrs[fn] = make_unit(m)
+            MOD_TABLE.append({"p": list(path) + [fn], "m": [m, 1]})
+            MOD_FUNS.append(".".join(path + [fn]))
+        if len(path) < 4:
+            for ns in NS_NAMES:
+                if sparse and rng.random() < 0.35:
+                    continue
+                attrs[ns] = node(path + [ns], sparse)
+        return _mk_object(rng.choice(["module", "simple", "class"]), ".".join(path), attrs)
+    MODS["tk"] = node(["tk"], False)
+    MODS["lib"] = node(["lib"], True)
+
+
+def mods_for(text):
+    """The object table, for requests whose text mentions one of the objects."""
+    return MOD_TABLE if any(t + "." in text or t + "(" in text.replace(" ", "").replace("\t", "")
+                            for t in MODS) else None
+
+
+def random_path(rng):
+    """A dotted callee that may or may not exist: top(.ns){0,3}.fn, sometimes a namespace."""
+    segs = [rng.choice(TOPS)] + [rng.choice(NS_NAMES) for _ in range(rng.randrange(0, 4))]
+    if rng.random() < 0.9:
+        segs.append(rng.choice(FN_NAMES))
+    return ".".join(segs)
+
+
 def _data():
     return pd.DataFrame({"y": [1.0, 2.0, 3.0, 4.0], "x": X, "z": Z})
 
 
 def namespace():
-    return {"f": f, "g": g, "c": C}
+    return {"f": f, "g": g, "c": C, **MODS}
 
 
 LEAN_VARS = {"x": {"v": [[int(Fraction(t).numerator), int(Fraction(t).denominator)] for t in X]},
@@ -304,6 +394,11 @@ def gen_tree(rng, depth, allow_misc=True):
     if r < 0.78:
         return ("un", rng.choice(UN_OPS), gen_tree(rng, depth - 1, allow_misc))
     if r < 0.92:
+        if MOD_FUNS and rng.random() < 0.3:
+            # a dotted callee through the module-like objects (an existing function mostly)
+            path = rng.choice(MOD_FUNS) if rng.random() < 0.85 else random_path(rng)
+            kws = [("k", gen_tree(rng, depth - 2, False))] if rng.random() < 0.4 else []
+            return ("call", path, [gen_tree(rng, depth - 1, False)], kws)
         if rng.random() < 0.6:
             kws = [("k", gen_tree(rng, depth - 2, False))] if rng.random() < 0.4 else []
             return ("call", "g", [gen_tree(rng, depth - 1, False)], kws)
@@ -337,13 +432,16 @@ def add_parens(t, rng, p=0.25):
 # ------------------------------------------------------------------------------------------------
 # observers
 # ------------------------------------------------------------------------------------------------
-def _split_log(log):
+def _split_log(log, indices):
     """The stream of recorded calls of one formula, cut after every `f` entry whose first
-    positional argument is an int (the case index)."""
+    positional argument is an int that is the index of a case of this batch.  (A nested `f(0)` /
+    `f(2, x)` whose literal is not an index of the batch is an ordinary recorded call; one whose
+    literal is an index of the batch gives that index two segments, which `impl_batch` notices and
+    answers by evaluating the batch case by case.)"""
     out, cur = {}, []
     for ent in log:
         cur.append(ent)
-        if ent[0] == "f" and ent[1] and ent[1][0][0] == "int":
+        if ent[0] == "f" and ent[1] and ent[1][0][0] == "int" and ent[1][0][1] in indices:
             out.setdefault(ent[1][0][1], []).append(cur)
             cur = []
     return out, cur
@@ -365,9 +463,9 @@ def impl_batch(cases):
         with warnings.catch_warnings(), np.errstate(all="ignore"):
             warnings.simplefilter("ignore")
             dm = design_matrices(formula, _data(), extra_namespace=namespace())
-        logs, rest = _split_log(list(LOG))
+        logs, rest = _split_log(list(LOG), {j for j, _ in cases})
         names = list(dm.common.terms)
-        if len(names) != len(cases) or rest:
+        if len(names) != len(cases) or rest or any(len(v) != 1 for v in logs.values()):
             raise RuntimeError("batch shape")
         for (j, _), name in zip(cases, names):
             if not name.startswith(f"f({j}") or len(logs.get(j, [])) != 1:
@@ -603,6 +701,8 @@ def run_cases(res, texts, kind):
     for r in reqs:
         if r["impl_name"] is None:
             del r["impl_name"]
+        if mods_for(r["s"]):
+            r["mods"] = mods_for(r["s"])
     lean = ask(reqs)
     for (j, t), lo in zip(cases, lean):
         judge(res, {"s": t, "kind": kind}, impl[j], lo, kind)
@@ -616,6 +716,8 @@ def run_whole(res, texts, kind):
         r = {"op": "c12", "s": t, "n": N, "vars": LEAN_VARS}
         if isinstance(io.get("name"), str):
             r["impl_name"] = io["name"]
+        if mods_for(t):
+            r["mods"] = mods_for(t)
         reqs.append(r)
     lean = ask(reqs)
     for t, io, lo in zip(texts, impl, lean):
@@ -679,8 +781,12 @@ def run_pairs(res, pairs, kind):
 def explore(tier, seed, res=None, replay=None):
     res = res or Result()
     res.rule = ("call terms f(<expr>) over columns x, z (dyadic float64), scalar c, literals, "
-                "recording callees f, g; non-trivial = the implementation builds a term; distinct by "
-                "the parsed tree (Lean sexp)")
+                "recording callees f, g and dotted callees a.b.c.fn (1-4 dots) through module-like "
+                "objects whose levels re-use the same attribute names for different recording "
+                "functions (complete tree `tk`, random sparse tree `lib`); non-trivial = the "
+                "implementation builds a term; distinct by the parsed tree (Lean sexp)")
+    # the module-like objects depend on the seed only (a replay rebuilds the same objects)
+    build_mods(rng_for(seed, "c12", "mods"))
     if replay is not None:
         if "a" in replay:
             run_pairs(res, [(replay["a"], replay["b"])], replay.get("kind", "replay"))
@@ -771,8 +877,32 @@ def explore(tier, seed, res=None, replay=None):
                  "f(12345678901234567890)", "f(123456789.123456789)", "f(.5.5)", "f(1.)", "f(1..2)"]
     run_whole(res, malformed, "malformed")
 
+    # 6. dotted callees: every function of the object trees (callee depth 1-4), as an argument of
+    #    f and as a term of its own; random (possibly missing) paths; namespaces called; dotted
+    #    calls inside dotted calls; keyword / expression arguments
+    dotted = []
+    for pth in MOD_FUNS:
+        dotted.append(f"{pth}({rng.choice(['x', 'z', 'x + c', 'z * 2', '-x'])})")
+    for i in range(150 if quick else 3000):
+        pth = rng.choice(MOD_FUNS) if rng.random() < 0.6 else random_path(rng)
+        arg = join(render(gen_tree(rng, rng.randrange(0, 3), allow_misc=False), "py"), rng)
+        kw = f", k={rng.choice(['2', 'z', 'c', '0.5', 'x - 1'])}" if rng.random() < 0.3 else ""
+        dotted.append(f"{pth}({arg}{kw})")
+    for pth in MOD_NSS[:: (7 if quick else 1)]:
+        dotted.append(f"{pth}(x)")                       # a namespace is not callable
+    dotted = sorted(set(dotted))
+    run_cases(res, dotted, "dotted")
+    col = [t for t in dotted if "x" in t or "z" in t]
+    run_whole(res, rng.sample(col, min(len(col), 60 if quick else 600)), "dotted_whole")
+
     # 5. one term or two?  textual variants / different calls / the D16 class
     pairs = list(brace_pairs[: (30 if quick else 300)])
+    for i in range(40 if quick else 400):
+        # two dotted callees applied to one argument: different paths are different calls
+        a, b = rng.choice(MOD_FUNS), rng.choice(MOD_FUNS)
+        if rng.random() < 0.5:
+            b = ".".join([a.split(".")[0]] + a.split(".")[2:]) if a.count(".") >= 2 else b
+        pairs.append((f"{a}(x)", f"{b}( x )"))
     for i in range(150 if quick else 3000):
         t = gen_tree(rng, rng.randrange(1, 4))
         a = "f(" + join(render(t, "py"), rng) + ")"
